@@ -138,3 +138,96 @@ def rename(spec, rng, eps_choices=('ε', '_', '', 'e'), special_p=0.08, keep_sym
     rank = {'Q': {qm[q]: i for i, q in enumerate(Q)},
             'Sigma': {sm[a]: i for i, a in enumerate(sorted(set(sig) | set(gam)))}}
     return out, rank
+
+
+def shrink_dfa(s, drop_symbols=True):
+    """Smaller variants of a (complete) DFA spec, keeping names; most aggressive first."""
+    import copy
+    for q in s['Q']:
+        if q == s['q0']:
+            continue
+        t = copy.deepcopy(s)
+        t['Q'] = [x for x in t['Q'] if x != q]
+        t['F'] = [x for x in t['F'] if x != q]
+        t['delta'] = [[p, a, (r if r != q else p)] for p, a, r in t['delta'] if p != q]
+        yield t
+    if drop_symbols:
+        for a in s['Sigma']:
+            t = copy.deepcopy(s)
+            t['Sigma'] = [x for x in t['Sigma'] if x != a]
+            t['delta'] = [d for d in t['delta'] if d[1] != a]
+            yield t
+    for q in s['F']:
+        t = copy.deepcopy(s)
+        t['F'] = [x for x in s['F'] if x != q]
+        yield t
+    for i, (p, a, r) in enumerate(s['delta']):
+        if r != p:
+            t = copy.deepcopy(s)
+            t['delta'][i] = [p, a, p]
+            yield t
+    for i, (p, a, r) in enumerate(s['delta']):
+        if r != s['q0']:
+            t = copy.deepcopy(s)
+            t['delta'][i] = [p, a, s['q0']]
+            yield t
+
+
+def shrink_nfa(s):
+    import copy
+    for q in s['Q']:
+        if q == s['q0']:
+            continue
+        t = copy.deepcopy(s)
+        t['Q'] = [x for x in t['Q'] if x != q]
+        t['F'] = [x for x in t['F'] if x != q]
+        t['delta'] = [[p, a, [r for r in T if r != q]] for p, a, T in t['delta'] if p != q]
+        t['delta'] = [d for d in t['delta'] if d[2]]
+        yield t
+    for i in range(len(s['delta'])):
+        t = copy.deepcopy(s)
+        del t['delta'][i]
+        yield t
+    for i, (p, a, T) in enumerate(s['delta']):
+        if len(T) > 1:
+            for r in T:
+                t = copy.deepcopy(s)
+                t['delta'][i][2] = [x for x in T if x != r]
+                yield t
+    for a in s['Sigma']:
+        t = copy.deepcopy(s)
+        t['Sigma'] = [x for x in t['Sigma'] if x != a]
+        t['delta'] = [d for d in t['delta'] if d[1] != a]
+        yield t
+    for q in s['F']:
+        t = copy.deepcopy(s)
+        t['F'] = [x for x in s['F'] if x != q]
+        yield t
+
+
+def rename_states(spec, rng, special_p=0.08, shuffle=True):
+    """Rename states only (symbols untouched)."""
+    out, rank = rename(spec, rng, special_p=special_p, keep_symbols=True, shuffle=shuffle)
+    return out, rank
+
+
+def spec_of_canon(c):
+    """A DFA spec (abstract names) of a canonical minimal DFA (sigma, trans, acc)."""
+    sigma, trans, acc = c
+    Q = ['s%d' % i for i in range(len(trans))]
+    delta = [[Q[i], a, Q[row[k]]] for i, row in enumerate(trans) for k, a in enumerate(sigma)]
+    return {'kind': 'dfa', 'Q': Q, 'Sigma': list(sigma), 'delta': delta, 'q0': Q[0], 'F': [Q[i] for i, x in enumerate(acc) if x]}
+
+
+def add_unreachable(spec, rng, k):
+    import copy
+    t = copy.deepcopy(spec)
+    base = len(t['Q'])
+    for j in range(k):
+        q = 'u%d' % (base + j)
+        t['Q'].append(q)
+        for a in t['Sigma']:
+            t['delta'].append([q, a, rng.choice(t['Q'])])
+        if rng.random() < 0.5:
+            t['F'].append(q)
+    return t
